@@ -90,6 +90,15 @@ WriteX(v, we, ws, sid) ==
   [ Write(v) EXCEPT !.weid = we, !.wsid = ws, !.ecuStd = IF we THEN v.ecu ELSE NoId, !.sid = IF ws THEN sid ELSE NoId,
                     !.len = WXLen(v, we, ws) ]
 
+(* The writers take any std::io::Write destination.  A destination may legally accept fewer bytes per call than offered, answer
+   ErrorKind::Interrupted now and then, or fail after `limit` accepted bytes.  What arrives must not depend on that:
+   whenever the write call returns Ok, the destination holds exactly the bytes the same call puts into a Vec (total of them);
+   a destination that fails before the message is complete makes the call return an error (never Ok with a partial
+   message; what has arrived by then is not claimed - the code documents partial writes on io errors); a destination
+   whose limit is not reached is not an excuse for an error.                                                       *)
+DestOk(total, limit, ok, arrived, equal) ==
+  IF limit < total THEN ~ok ELSE (ok /\ equal /\ arrived = total)
+
 -----------------------------------------------------------------------------
 \* the theorems (C02), as predicates over one well-formed stored message m
 RoundTrip(m) == LET v == ParseView(m) w == Write(v) v2 == ParseView(w) IN
